@@ -247,4 +247,23 @@ CHECKS = {
         "rule": "generated programs of 8-30 steps over a cluster of 3 or 5 real storage nodes (+0-1 spare) and the real coordinator ShardController, all in one process and connected by a harness-owned wire: client writes (put / conditional put / delete / delete-range, each with a unique marker record) and reads sent to the node the client believes to be leader (current, remembered or arbitrary), bursts of 2-4 concurrent operations, isolate / cut link / heal, graceful node restart, node stop/start (minority), 'node unavailable' notifications to the coordinator, coordinator restart from the stored metadata, holding a node's next NewTerm response, node swap to the spare, settle pauses; WAL segments of 1 KiB..64 KiB so rollovers and truncations cross segments. At the end everything is healed and restarted, a fresh coordinator elects, a final write is issued and the ensemble catches up. Every message, metadata store and client invoke/return is recorded in one ordered history. Oracle (C05) over the recorded coordinator events: every NewTerm/BecomeLeader/AddFollower carries the term of the latest successful metadata store and terms sent never go down, also across coordinator restarts; per term at most one node answers BecomeLeader successfully; every installed leader is a member of the stored ensemble, a majority of that ensemble had answered NewTerm(T) before the request was sent, and its reported head is maximal among the responders in its follower map; a node never answers NewTerm for a term below one it answered before and its reported term never decreases, also across restarts. Non-trivial: as C01.",
         "assumptions": ['coordinator crash points are restarts between steps (not inside a metadata write)'],
     },
+    "C20": {
+        "level": "exploration",
+        "tests": [
+            {"pkg": "clientx", "run": "^TestC20_Mixed$", "quick": 1200, "thorough": 30000},
+            {"pkg": "clientx", "run": "^TestC20_FanOut$", "quick": 1200, "thorough": 30000},
+        ],
+        "rule": "the real public client (oxia.NewAsyncClient, unmodified) over loopback gRPC against harness-owned fake servers "
+                "(1 bootstrap + 1-3 leaders per case, 1-6 shards): 5-80 generated calls mixing Put / Delete / DeleteRange / Get with "
+                "option mixes and value sizes from 1 B to above the 128 KiB batch limit, linger 0-5 ms, 1-8 requests per batch; "
+                "multi-shard List, RangeScan and comparison Get over disjoint per-shard sorted key sets; per-case scripts place "
+                "latencies, retriable / non-retriable failures on the batch carrying a chosen operation, and write-stream kills. "
+                "The fake server's answer is a function of the operation's own key/value. Oracle: every call completes exactly "
+                "once with the answer of that very operation; operations of a failed batch (and only they) get that failure; "
+                "batches respect the count and byte limits unless a single oversized call; list = multiset union, range-scan = "
+                "sorted merge in the documented key order, comparison get = best candidate across shards; no panic. "
+                "Non-trivial: >=2 batches on one shard with a failure in one, or a multi-shard read with >=1 failing shard.",
+        "assumptions": ["bounded waits: a call that does not complete within the bound makes the case inconclusive",
+                        "a streaming call counts as completed once it delivered an error item"],
+    },
 }
